@@ -42,6 +42,39 @@ G1GenOK(x, y) ==
   /\ SWOn(G1Gen, MOne(Pm))
   /\ SWMul(Qm, G1Gen) = SWInf /\ G1Gen # SWInf            \* q prime: order exactly q
 
+\* ---- the same over Fp2 = Fp[u]/(u^2 + 5) for G2 ---------------------------------
+Beta2 == NSub(Pm, NFromNat(5))
+F2Add(a, b) == <<MAdd(Pm, a[1], b[1]), MAdd(Pm, a[2], b[2])>>
+F2Sub(a, b) == <<MSub(Pm, a[1], b[1]), MSub(Pm, a[2], b[2])>>
+F2Neg(a) == <<MNeg(Pm, a[1]), MNeg(Pm, a[2])>>
+F2Mul(a, b) == << MAdd(Pm, MMul(Pm, a[1], b[1]), MMul(Pm, Beta2, MMul(Pm, a[2], b[2]))),
+                  MAdd(Pm, MMul(Pm, a[1], b[2]), MMul(Pm, a[2], b[1])) >>
+F2Inv(a) == LET nrm == MInv(Pm, MSub(Pm, MSq(Pm, a[1]), MMul(Pm, Beta2, MSq(Pm, a[2]))))      \* 1 / (a0^2 - beta a1^2)
+            IN << MMul(Pm, a[1], nrm), MNeg(Pm, MMul(Pm, a[2], nrm)) >>
+F2Zero == <<MZero(Pm), MZero(Pm)>>
+F2Three == <<NMod(NFromNat(3), Pm), MZero(Pm)>>
+SW2On(pt, b) == pt = SWInf \/ F2Mul(pt[2], pt[2]) = F2Add(F2Mul(F2Mul(pt[1], pt[1]), pt[1]), b)
+SW2Add(p1, p2) ==
+  IF p1 = SWInf THEN p2 ELSE IF p2 = SWInf THEN p1
+  ELSE IF p1[1] = p2[1] /\ p1[2] = F2Neg(p2[2]) THEN SWInf
+  ELSE LET lam == IF p1 = p2
+                  THEN F2Mul(F2Mul(F2Three, F2Mul(p1[1], p1[1])), F2Inv(F2Add(p1[2], p1[2])))
+                  ELSE F2Mul(F2Sub(p2[2], p1[2]), F2Inv(F2Sub(p2[1], p1[1])))
+           x3 == F2Sub(F2Sub(F2Mul(lam, lam), p1[1]), p2[1])
+       IN << x3, F2Sub(F2Mul(lam, F2Sub(p1[1], x3)), p1[2]) >>
+RECURSIVE SW2MulR(_, _, _, _)
+SW2MulR(bits, i, acc, ins) ==
+  IF i > Len(bits) THEN acc
+  ELSE LET acc2 == IF bits[i] = 1 THEN SW2Add(acc, ins) ELSE acc
+           ins2 == SW2Add(ins, ins)
+       IN IF acc2 = acc2 /\ ins2 = ins2 THEN SW2MulR(bits, i + 1, acc2, ins2) ELSE acc
+SW2Mul(k, pt) == SW2MulR(NBits(k), 1, SWInf, pt)
+G2Gen == <<G2xReal, G2yReal>>
+G2GenOK(x, y) ==
+  /\ Len(x) = 2 /\ Len(y) = 2 /\ NEq(x[1], G2xReal[1]) /\ NEq(x[2], G2xReal[2]) /\ NEq(y[1], G2yReal[1]) /\ NEq(y[2], G2yReal[2])
+  /\ SW2On(G2Gen, G2BReal)
+  /\ SW2Mul(Qm, G2Gen) = SWInf /\ G2Gen # SWInf            \* order exactly q
+
 \* ---- the observation tables -----------------------------------------------------
 Rec == ndJsonDeserialize(IOEnv.TRACE)
 VARIABLES l, tab
@@ -59,6 +92,7 @@ TReset == IsEvent("reset") /\ UNCHANGED tab          \* tables persist across se
 TGen == IsEvent("blsgen") /\ LET e == Rec[l] IN
           /\ e.ours = e.ref /\ e.ours_unc = e.ref_unc
           /\ (e.grp = "G1") => (G1GenOK(e.x, e.y) /\ NEq(e.xr, G1xReal) /\ NEq(e.yr, G1yReal))
+          /\ (e.grp = "G2") => G2GenOK(e.x, e.y)
           /\ Observe(e.grp, MOne(Qm), e.ours)                         \* the generator is exponent 1
 TMul == IsEvent("blsmul") /\ LET e == Rec[l] key == SumTerms(e.terms, 1, MZero(Qm)) IN
           /\ e.ours = e.ref /\ e.ours_unc = e.ref_unc /\ e.cross
